@@ -1039,7 +1039,8 @@ def spelling_oracle(ctx):
             names |= set(dir(getattr(importlib.import_module(mod), cls)))
         except Exception:  # noqa
             pass
-    names |= set(dir(path)) | {"k", "x_y", "_private", "keys", "items", "data", "path", "match", "vertex", "_vertex", "name"}
+    names |= set(dir(path)) | {"k", "x_y", "_private", "keys", "items", "data", "path", "match", "vertex", "_vertex", "name",
+                                    "_Ledger__total", "_A__b_c", "__x", "_x__", "x__y", "_"}
     names = sorted(n for n in names if not (n.startswith("__") and n.endswith("__")) and n not in DOCUMENTED_ATTRS)
     it = iter(names)
     _run(ctx, "spelling", len(names), len(names), lambda rng: {"name": next(it)}, spelling_check)
